@@ -1396,6 +1396,13 @@ static int state_sync_process(struct snapraid_state* state, struct snapraid_pari
 
 			msg_progress("Autosaving...\n");
 
+			/* wait for the parity writes still queued in the writer threads, */
+			/* because the content file is going to record their blocks as synced */
+			io_flush(&io);
+
+			/* mark as bad the blocks with a failed write */
+			sync_writer_error_mark(state, &io);
+
 			/* before writing the new content file we ensure that */
 			/* the parity is really written flushing the disk cache */
 			for (l = 0; l < state->level; ++l) {
